@@ -40,7 +40,7 @@ def run_level_shard(mod, shard, tier, depth_limit):
         res["evaluations"] += 1
         if "traces_validated_against_impl" not in counters:
             res["traces_validated_against_impl"] += 1  # every state and transition is a real API call on the implementation
-        for f in fails[:2]:
+        for f in fails[:60]:  # never truncate to a couple: a known finding must not crowd out another failure of the state
             res["violations"].append({"history": [start, list(labels)], "what": f"[{start} -> {' -> '.join(labels) or '(start)'}] {f}",
                                       "class": mod.classify_text(f)})
         if len(labels) < depth_limit:
@@ -50,7 +50,7 @@ def run_level_shard(mod, shard, tier, depth_limit):
                 okey = outcome.split(":")[0] if not outcome.startswith("crash") else outcome.split(":", 2)[0] + ":" + outcome.split(":", 2)[1]
                 res["outcomes"][okey] = res["outcomes"].get(okey, 0) + 1
                 tfails = mod.check_transition(hist, model, lab, m2, outcome, tier) if hasattr(mod, "check_transition") else []
-                for f in tfails[:2]:
+                for f in tfails[:20]:
                     res["violations"].append({"history": [start, list(labels) + [lab]],
                                               "what": f"[{start} -> {' -> '.join(list(labels) + [lab])}] {f}", "class": mod.classify_text(f)})
                 if m2 is not None:
